@@ -891,9 +891,9 @@ static std::map<std::string, std::string> const SKIP = {
 };
 
 static std::vector<std::string> const VALUES_QUICK = {
-    "0", "-1", "1", "1000000", "9223372036854775807", "1e300", "nan", "inf", "", "nonexistent_zz"};
+    "0", "-1", "1", "1000000", "9223372036854775807", "2305843009213693952", "1e300", "nan", "inf", "", "nonexistent_zz"};
 static std::vector<std::string> const VCLASS_QUICK = {
-    "0", "-1", "1", "1000000", "i64max", "1e300", "nan", "inf", "empty", "noexist"};
+    "0", "-1", "1", "1000000", "i64max", "2^61", "1e300", "nan", "inf", "empty", "noexist"};  // (2^61 x 1000 wraps to zero in 64 bits)
 static std::vector<std::string> const VALUES_MORE = {"-1e300", "-inf", "2147483648", "0.5", "1e-300", "-1000000"};
 static std::vector<std::string> const VCLASS_MORE = {"-1e300", "-inf", "2^31", "0.5", "1e-300", "-1000000"};
 
@@ -1000,8 +1000,12 @@ static void enum_block(int bi, Node &blk, std::vector<int> const &path, bool tho
         push(m);
       }
     }
+    if (kw == "refpositions" && m.kid >= 0 && !present_block) {
+      // fewer reference positions than atoms (e.g. together with atomPermutation, which indexes them)
+      m.value = "(0.0,0.0,0.0) (1.0,0.0,0.0)"; m.vclass = "two-positions"; push(m);
+    }
     if (kw == "atomnumbersrange") {
-      const char *sv[] = {"3-1", "0-2", "1-1000000", "2-2"};
+      const char *sv[] = {"3-1", "5-1", "0-2", "1-1000000", "2-2"};
       for (auto s : sv) { m.value = s; m.vclass = std::string("range:") + s; push(m); }
     }
   }
@@ -1961,6 +1965,41 @@ int main(int argc, char **argv)
     total.sample("{\"base\":\"" + jesc(BASES[cases[0].base].name) + "\",\"mutation\":\"" + jesc(case_label(cases[0])) +
                  "\",\"operations\":\"parse; 4 steps; state to string; output files; end of run; destroy module\",\"config\":\"" +
                  jesc(case_config(cases[0])) + "\"}");
+  // ---------------- phase 0: listed invalid inputs (complete configurations; each in its own child) ----------------
+  // Inputs that the keyword-by-keyword enumeration does not produce (a value that is only invalid in one place, or with one
+  // other option).  Each must be refused with a message - never end the process, and not be accepted silently.
+  {
+    struct Listed { const char *name; std::string conf; };
+    std::string g2 = " group2 {\n atomNumbers 10\n }\n";
+    std::vector<Listed> listed = {
+      {"atomNumbersRange-in-descending-order", "colvar {\n name d\n distance {\n group1 {\n atomNumbersRange 5-1\n }\n" + g2 + " }\n}\n"},
+      {"atomNumbersRange-in-descending-order-after-atomNumbers", "colvar {\n name d\n distance {\n group1 {\n atomNumbers 7 8\n atomNumbersRange 5-1\n }\n" + g2 + " }\n}\n"},
+      {"atomNumbersRange-in-descending-order-by-one", "colvar {\n name d\n distance {\n group1 {\n atomNumbers 7 8\n atomNumbersRange 3-2\n }\n" + g2 + " }\n}\n"},
+      {"rmsd-two-reference-positions-for-four-atoms-with-atomPermutation",
+       "colvar {\n name r\n rmsd {\n atoms {\n atomNumbers 1 2 3 4\n }\n refPositions (0.0, 0.0, 0.0) (1.0, 0.0, 0.0)\n atomPermutation 4 3 2 1\n }\n}\n"},
+      {"variable-timeStepFactor-0-with-extendedLagrangian",
+       "colvar {\n name d\n timeStepFactor 0\n extendedLagrangian on\n extendedFluctuation 0.2\n extendedTimeConstant 100.0\n extendedTemp 300.0\n distance {\n group1 {\n atomNumbers 1 2\n }\n" + g2 +
+       " }\n}\nharmonic {\n colvars d\n centers 5.0\n forceConstant 1.0\n}\n"},
+      {"colvarsTrajFrequency-2^61", "colvarsTrajFrequency 2305843009213693952\ncolvar {\n name d\n distance {\n group1 {\n atomNumbers 1 2\n }\n" + g2 + " }\n}\n"},
+    };
+    for (auto const &li : listed) {
+      total.count("evaluations");
+      total.count("phase0_listed_inputs");
+      std::string conf = li.conf;
+      Outcome o = run_child([&]() { return child_body(conf, false); }, T_RETRY, RSS_CAP_MB);
+      total.seen("nontrivial", fnv(std::string("listed") + li.name));
+      std::string det = "{\"listed_input\":\"" + std::string(li.name) + "\",\"config\":\"" + jesc(conf) + "\"";
+      if (o.kind != "ok") {
+        total.violation(std::string("C10:listed:") + li.name + ":" + o.kind, det + ",\"end\":\"" + jesc(o.kind) + "\",\"report_tail\":\"" + jesc(o.report.substr(o.report.size() > 600 ? o.report.size() - 600 : 0)) + "\"}");
+        continue;
+      }
+      // "RC <parse> ..." first line of the child's answer
+      int prc = -1;
+      { size_t pz = o.out.find("RC "); if (pz != std::string::npos) prc = atoi(o.out.c_str() + pz + 3); }
+      if (prc == 0 && std::string(li.name) != "colvarsTrajFrequency-2^61")
+        total.violation(std::string("C10:listed:") + li.name + ":accepted-without-an-error", det + "}");
+    }
+  }
   if (!run_cases(cases, "phase1", total)) return 2;
   double t1 = now();
   fprintf(stderr, "phase1: %zu cases in %.1fs\n", cases.size(), t1 - t_start);
